@@ -65,6 +65,7 @@ CHECKS['C05'] = dict(
         U('inpkg', 'FuzzVerifC05_Relations', None, q(fuzz=90), pkg='algo'),
         U('inpkg', 'TestVerifC05_SlabSequence', q(16000, 8), q(320000, 16, cap=1800), pkg='algo'),
         U('inpkg', 'TestVerifC05_SchemeHistory', q(8000, 4), q(160000, 8), pkg='algo'),
+        U('inpkg', 'TestVerifC05_ItemCaches', q(32000, 16), q(640000, 16, cap=1500), pkg='src'),
     ])
 
 CHECKS['C01'] = dict(
